@@ -7,7 +7,7 @@
 (* printed as <<"MISMATCH", json>> and classified against the open known   *)
 (* findings.  TraceAccepted requires that every line was consumed.         *)
 (***************************************************************************)
-EXTENDS Order, KnownFindings, Range, ShorthandSem, VersSyntax, Json, SequencesExt, FiniteSetsExt, Dpkg, MavenCV, SemVer, Pep440, GemVersion, Apk
+EXTENDS Order, KnownFindings, Range, ShorthandSem, VersSyntax, CliSem, Json, SequencesExt, FiniteSetsExt, Dpkg, MavenCV, SemVer, Pep440, GemVersion, Apk
 
 CONSTANTS TraceFile,     \* path of the NDJSON trace
           Prop,          \* property id being judged, e.g. "C01"
@@ -231,8 +231,37 @@ RtC18(ev) ==
   IN base \cup UNION {padbad(ev.pads[i]) : i \in 1..Len(ev.pads)}
      \cup {rec("panic: " \o ev.panics[i], <<>>) : i \in 1..Len(ev.panics)}
 
+(* C15: the CLI prints exactly the library's result (one line, exit 0) when every   *)
+(* stage of the decision machine passes, and otherwise a diagnostic (not a result     *)
+(* rendering) with exit 1.  The library observation for the same arguments is in the  *)
+(* event; ev.lib.kind = "none" when the arguments do not select a library operation.  *)
+CliC15(ev) ==
+  LET nk == NameKindOf(ev.argv)
+      ck == CmdKindOf(ev.argv)
+      nargs == IF Len(ev.argv) >= 2 THEN Len(ev.argv) - 2 ELSE 0
+      stage == Stage(nk, ck, nargs, ev.lib.ok)
+      want  == CASE ev.lib.kind = "compare" -> Digits(ev.lib.int) \o <<10>>
+                 [] ev.lib.kind \in {"contains", "vers"} -> BoolText(ev.lib.bool) \o <<10>>
+                 [] ev.lib.kind = "sort" -> JoinSp([i \in 1..Len(ev.lib.strs) |-> GoQuote(ev.lib.strs[i])]) \o <<10>>
+                 [] OTHER -> <<>>
+      claimed == ev.lib.kind # "sort" \/ \A i \in 1..Len(ev.lib.strs) : Quotable(ev.lib.strs[i])
+      rec(why) == {[prop |-> Prop, why |-> why, argv |-> ev.show, stdout |-> C2S(ev.stdout), exit |-> ev.exit, stage |-> stage,
+                    known |-> ""]} IN
+  IF ev.hang THEN rec("hang")
+  ELSE IF ev.lib.panic # "" THEN rec("library panic")
+  ELSE IF stage = "result" /\ ev.lib.kind = "none" THEN rec("trace-inconsistent")
+  ELSE IF stage = "result"
+       THEN (IF ev.exit # 0 THEN rec("success must exit 0")
+             ELSE IF claimed /\ ev.stdout # want THEN rec("stdout is not the library's result")
+             ELSE IF Lines(ev.stdout) # 1 /\ claimed THEN rec("more than one line") ELSE {})
+  ELSE (IF ev.exit # 1 THEN rec("failure must exit 1")
+        ELSE IF ev.stdout = <<>> \/ IsResultLine(ev.stdout) THEN rec("failure must print a diagnostic, not a result")
+        ELSE IF Prop = "C07" /\ stage = "parse-failure" /\ ev.lib.bad # <<>> /\ Len(ev.lib.bad) <= 60 /\ ~ContainsSub(ev.stdout, ev.lib.bad)
+             THEN rec("diagnostic does not name the offending argument") ELSE {})
+
 Judge(ev) ==
   CASE ev.k = "matrix" /\ Prop = "C01" -> MatrixC01(ev)
+    [] ev.k = "cli" /\ Prop \in {"C15", "C07"} -> CliC15(ev)
     [] ev.k = "roundtrip" /\ Prop = "C18" -> RtC18(ev)
     [] ev.k = "verswf" /\ Prop = "C17" -> VersWfC17(ev)
     [] ev.k = "versvar" /\ Prop = "C16" -> VersVarC16(ev)
